@@ -70,6 +70,51 @@ mod verif_probe {
     }
 }
 
+#[cfg(kani)]
+mod verif_probe3 {
+    use super::*;
+    fn any_dy(lim: i32) -> f32 { let v: i32 = kani::any(); kani::assume(v >= -lim && v <= lim); (v as f32) * 0.125 }
+    #[kani::proof]
+    fn probe_locspec_edges() {
+        let x1 = any_dy(8192); let y1 = any_dy(8192); let w = any_dy(4096); let h = any_dy(4096);
+        kani::assume(w >= 0.0 && h >= 0.0);
+        let bb = BoundingBox::new(x1, y1, x1 + w, y1 + h);
+        let o = any_dy(4096);
+        let (px, py) = bb.locspec(LocSpec::TopEdge(Length::Absolute(o)));
+        assert!(py == y1);
+        if o >= 0.0 { assert!(px == x1 + o); } else { assert!(px == (x1 + w) + o); }
+        let (qx, qy) = bb.locspec(LocSpec::RightEdge(Length::Ratio(0.25)));
+        assert!(qx == x1 + w);
+        assert!(qy == y1 + ((y1 + h) - y1) * 0.25);
+        let (cx, cy) = bb.locspec(LocSpec::Center);
+        assert!(cx == (x1 + (x1 + w)) / 2.0 && cy == (y1 + (y1 + h)) / 2.0);
+        kani::cover!(o < 0.0);
+    }
+    #[kani::proof]
+    fn probe_round_outward() {
+        let a: f32 = kani::any(); let b: f32 = kani::any(); let c: f32 = kani::any(); let d: f32 = kani::any();
+        kani::assume(a.is_finite() && b.is_finite() && c.is_finite() && d.is_finite());
+        kani::assume(a.abs() < 8388608.0 && b.abs() < 8388608.0 && c.abs() < 8388608.0 && d.abs() < 8388608.0);
+        kani::assume(a <= c && b <= d);
+        let mut bb = BoundingBox::new(a, b, c, d);
+        bb.round();
+        assert!(bb.x1 <= a && bb.y1 <= b && bb.x2 >= c && bb.y2 >= d);
+        assert!(a - bb.x1 < 1.0 && bb.x2 - c < 1.0);
+        assert!(bb.x1 == bb.x1.floor() && bb.x2 == bb.x2.ceil());
+    }
+    #[kani::proof]
+    fn probe_trbl() {
+        let x1 = any_dy(8192); let y1 = any_dy(8192); let w = any_dy(4096); let h = any_dy(4096);
+        kani::assume(w >= 0.0 && h >= 0.0);
+        let mut bb = BoundingBox::new(x1, y1, x1 + w, y1 + h);
+        let m = any_dy(1024);
+        bb.expand_trbl_length(TrblLength::new(Length::Absolute(m), Length::Ratio(0.5), Length::Absolute(m), Length::Ratio(0.25)));
+        let base = if w >= h { w } else { h };
+        assert!(bb.y1 == y1 - m && bb.y2 == (y1 + h) + m);
+        assert!(bb.x2 == (x1 + w) + base * 0.5 && bb.x1 == x1 - base * 0.25);
+    }
+}
+
 // ---- appended to src/element.rs ----
 #[cfg(kani)]
 pub mod verif_probe {
@@ -199,5 +244,185 @@ mod verif_probe {
         let fa = a.iter().next().unwrap().clone();
         let fb = b.iter().next().unwrap().clone();
         assert!(fa == fb);
+    }
+}
+
+// ---- appended to src/connector.rs ----
+#[cfg(kani)]
+mod verif_probe2 {
+    use super::*;
+    use crate::position::{BoundingBox, Size};
+    use crate::types::{AttrMap, ClassList, ElRef, OrderIndex};
+
+    fn any_dy(lim: i32) -> f32 {
+        let v: i32 = kani::any();
+        kani::assume(v >= -lim && v <= lim);
+        (v as f32) * 0.5
+    }
+    fn any_box() -> BoundingBox {
+        let x = any_dy(128); let y = any_dy(128);
+        let w = any_dy(64); let h = any_dy(64);
+        kani::assume(w >= 0.0 && h >= 0.0);
+        BoundingBox::new(x, y, x + w, y + h)
+    }
+    fn bare(name: &str, idx: usize) -> SvgElement {
+        SvgElement {
+            name: name.to_string(), original: String::new(), attrs: AttrMap::new(), classes: ClassList::new(),
+            text_content: None, order_index: OrderIndex::new(idx), indent: 0, src_line: 0, event_range: None, content_bbox: None,
+        }
+    }
+    struct Ctx { a: BoundingBox, b: BoundingBox }
+    impl ElementMap for Ctx {
+        fn get_element(&self, _e: &ElRef) -> Option<&SvgElement> { None }
+        fn get_element_bbox(&self, el: &SvgElement) -> Result<Option<BoundingBox>> {
+            Ok(Some(if el.indent == 0 { self.a } else { self.b }))
+        }
+        fn get_element_size(&self, _el: &SvgElement) -> Result<Option<Size>> { Ok(None) }
+    }
+    fn d2(p: (f32, f32), q: (f32, f32)) -> f32 { (p.0 - q.0) * (p.0 - q.0) + (p.1 - q.1) * (p.1 - q.1) }
+
+    #[kani::proof]
+    #[kani::unwind(10)]
+    fn probe_closest_loc_straight() {
+        let ctx = Ctx { a: any_box(), b: any_box() };
+        let this = bare("rect", 0);
+        let pt = (any_dy(128), any_dy(128));
+        let loc = closest_loc(&this, pt, ConnectionType::Straight, &ctx).unwrap();
+        let sel = ctx.a.locspec(loc);
+        for cand in edge_locations(ConnectionType::Straight) {
+            assert!(d2(sel, pt) <= d2(ctx.a.locspec(cand), pt));
+        }
+        kani::cover!(loc == LocSpec::BottomRight);
+    }
+
+    #[kani::proof]
+    #[kani::unwind(6)]
+    fn probe_shortest_link_h() {
+        let ctx = Ctx { a: any_box(), b: any_box() };
+        let this = bare("rect", 0);
+        let mut that = bare("rect", 1); that.indent = 1;
+        let (l1, l2) = shortest_link(&this, &that, ConnectionType::Horizontal, &ctx).unwrap();
+        let sel = d2(ctx.a.locspec(l1), ctx.b.locspec(l2));
+        for c1 in edge_locations(ConnectionType::Horizontal) { for c2 in edge_locations(ConnectionType::Horizontal) {
+            assert!(sel <= d2(ctx.a.locspec(c1), ctx.b.locspec(c2)));
+        } }
+    }
+}
+
+// ---- appended to src/expression.rs ----
+#[cfg(kani)]
+mod verif_probe4 {
+    use super::*;
+    use crate::context::{ElementMap, VariableMap};
+    use crate::element::SvgElement;
+    use crate::position::{BoundingBox, Size};
+    use crate::types::ElRef;
+    use rand::SeedableRng;
+    use rand_pcg::Pcg32;
+    use std::cell::RefCell;
+
+    struct Ctx { rng: RefCell<Pcg32> }
+    impl ElementMap for Ctx {
+        fn get_element(&self, _e: &ElRef) -> Option<&SvgElement> { None }
+        fn get_element_bbox(&self, _el: &SvgElement) -> Result<Option<BoundingBox>> { Ok(None) }
+        fn get_element_size(&self, _el: &SvgElement) -> Result<Option<Size>> { Ok(None) }
+    }
+    impl VariableMap for Ctx {
+        fn get_var(&self, _name: &str) -> Option<String> { None }
+        fn get_rng(&self) -> &RefCell<Pcg32> { &self.rng }
+    }
+    impl ContextView for Ctx {}
+
+    fn fmt_stub(_args: core::fmt::Arguments<'_>) -> String { String::new() }
+
+    #[kani::proof]
+    #[kani::unwind(5)]
+    #[kani::stub(alloc::fmt::format, fmt_stub)]
+    fn probe_clamp_total() {
+        let ctx = Ctx { rng: RefCell::new(Pcg32::seed_from_u64(0)) };
+        let mut es = EvalState::new(Vec::<Token>::new(), &ctx, &[]);
+        let a: f32 = kani::any(); let b: f32 = kani::any(); let c: f32 = kani::any();
+        let args = ExprValue::List(vec![ExprValue::Number(a), ExprValue::Number(b), ExprValue::Number(c)]);
+        let r = eval_function(Function::Clamp, &args, &mut es);
+        core::mem::forget(r);
+        core::mem::forget(args);
+    }
+
+    fn any_fun() -> Function {
+        let k: u8 = kani::any();
+        match k {
+            0 => Function::Abs, 1 => Function::Ceil, 2 => Function::Floor, 3 => Function::Fract, 4 => Function::Sign,
+            5 => Function::DivMod, 6 => Function::Sqrt, 7 => Function::Min, 8 => Function::Max, 9 => Function::Sum,
+            10 => Function::Product, 11 => Function::Mean, 12 => Function::Clamp, 13 => Function::Mix, 14 => Function::Equal,
+            15 => Function::NotEqual, 16 => Function::LessThan, 17 => Function::LessThanEqual, 18 => Function::GreaterThan,
+            19 => Function::GreaterThanEqual, 20 => Function::If, 21 => Function::Not, 22 => Function::And, 23 => Function::Or,
+            24 => Function::Xor, 25 => Function::Swap, 26 => Function::Select, 27 => Function::Addv, 28 => Function::Subv,
+            29 => Function::Scalev, 30 => Function::Head, 31 => Function::Tail, 32 => Function::Empty, 33 => Function::Count,
+            34 => Function::In, 35 => Function::Rect2Polar, 36 => Function::Polar2Rect, 37 => Function::Pow, 38 => Function::Exp,
+            39 => Function::Log, 40 => Function::Sin, 41 => Function::Cos, 42 => Function::Tan, 43 => Function::Asin,
+            44 => Function::Acos, _ => Function::Atan,
+        }
+    }
+
+    #[kani::proof]
+    #[kani::unwind(6)]
+    #[kani::stub(alloc::fmt::format, fmt_stub)]
+    fn probe_functions_total() {
+        let ctx = Ctx { rng: RefCell::new(Pcg32::seed_from_u64(0)) };
+        let mut es = EvalState::new(Vec::<Token>::new(), &ctx, &[]);
+        let n: usize = kani::any();
+        kani::assume(n <= 3);
+        let mut v = Vec::with_capacity(3);
+        for _ in 0..n { v.push(ExprValue::Number(kani::any())); }
+        let args = ExprValue::List(v);
+        let f = any_fun();
+        kani::assume(f != Function::Clamp); // known finding from probe_clamp_total
+        let r = eval_function(f, &args, &mut es);
+        core::mem::forget(r);
+        core::mem::forget(args);
+    }
+
+    #[kani::proof]
+    #[kani::unwind(8)]
+    #[kani::stub(alloc::fmt::format, fmt_stub)]
+    fn probe_eval_ops() {
+        let ctx = Ctx { rng: RefCell::new(Pcg32::seed_from_u64(0)) };
+        fn any_op() -> Token { let k: u8 = kani::any(); match k { 0 => Token::Add, 1 => Token::Sub, 2 => Token::Mul, 3 => Token::Div, _ => Token::Mod } }
+        let (a, b, c): (f32, f32, f32) = (kani::any(), kani::any(), kani::any());
+        let toks = vec![Token::Number(a), any_op(), Token::Number(b), any_op(), Token::Number(c)];
+        let r = evaluate(toks, &ctx);
+        core::mem::forget(r);
+    }
+
+    #[kani::proof]
+    #[kani::unwind(6)]
+    #[kani::stub(alloc::fmt::format, fmt_stub)]
+    fn probe_eval_ops2() {
+        let ctx = Ctx { rng: RefCell::new(Pcg32::seed_from_u64(0)) };
+        let (a, b): (f32, f32) = (kani::any(), kani::any());
+        let k: u8 = kani::any();
+        let op = match k { 0 => Token::Add, 1 => Token::Sub, 2 => Token::Mul, _ => Token::Div };
+        let toks = vec![Token::Number(a), op, Token::Number(b)];
+        let r = evaluate(toks, &ctx);
+        if let Ok(ExprValue::Number(v)) = &r {
+            let e = match k { 0 => a + b, 1 => a - b, 2 => a * b, _ => a / b };
+            assert!(v.to_bits() == e.to_bits() || (v.is_nan() && e.is_nan()));
+        }
+        core::mem::forget(r);
+    }
+    #[kani::proof]
+    #[kani::unwind(6)]
+    #[kani::stub(alloc::fmt::format, fmt_stub)]
+    fn probe_fn_mean() {
+        let ctx = Ctx { rng: RefCell::new(Pcg32::seed_from_u64(0)) };
+        let mut es = EvalState::new(Vec::<Token>::new(), &ctx, &[]);
+        let n: usize = kani::any();
+        kani::assume(n <= 3);
+        let mut v = Vec::with_capacity(3);
+        for _ in 0..n { v.push(ExprValue::Number(kani::any())); }
+        let args = ExprValue::List(v);
+        let r = eval_function(Function::Mean, &args, &mut es);
+        core::mem::forget(r);
+        core::mem::forget(args);
     }
 }
